@@ -214,8 +214,47 @@ def force_rmtree(p):
         os.unlink(p)
 
 
+def mount_tmpfs(path, opts):
+    """A small tmpfs of its own (size= / nr_inodes= limits, later remounted read-only): real ENOSPC / EROFS."""
+    r = subprocess.run(["mount", "-t", "tmpfs", "-o", opts, "none", u(b(path))], capture_output=True)
+    return r.returncode == 0
+
+
+def remount_ro(path):
+    return subprocess.run(["mount", "-o", "remount,ro", u(b(path))], capture_output=True).returncode == 0
+
+
+def umount(path):
+    subprocess.run(["umount", "-l", u(b(path))], capture_output=True)
+
+
+def stale_mounts():
+    """Mount points below the scratch areas whose creating process is gone (sandbox names carry the pid)."""
+    out = []
+    try:
+        lines = open("/proc/mounts").read().splitlines()
+    except OSError:
+        return out
+    for ln in lines:
+        f = ln.split()
+        if len(f) < 2:
+            continue
+        mp = f[1].replace("\\040", " ")
+        for root in SCRATCH.values():
+            base = os.path.join(root, "run") + "/"
+            if mp.startswith(base):
+                sbname = mp[len(base):].split("/")[0]
+                parts = sbname.split("-")
+                pid = int(parts[1]) if len(parts) > 2 and parts[1].isdigit() else None
+                if pid is None or not os.path.exists("/proc/%d" % pid):
+                    out.append(mp)
+    return out
+
+
 def cleanup_stale(max_age_s=6 * 3600):
     """Remove run directories left behind by killed checks (older than max_age_s)."""
+    for mp in stale_mounts():
+        umount(mp)
     nowt = time.time()
     for fs, root in SCRATCH.items():
         base = os.path.join(root, "run")
